@@ -172,33 +172,80 @@ def rule_args(ctx, rep):
 
 
 def rule_helper_contract(ctx, rep):
+    from ..argsrule import classify_args_expr
+    from ..flow import FlowAnalysis, has_event, may_event
+
     rep.rule(
         "R-HELPER-CONTRACT",
-        "replace_args appends every unmatched original argument and only add_if_missing extras; add_arg_to_call extends list(node.args); "
-        "update_call_target keeps original_node.args unless replacement_args are given; update_arg_target changes only args",
+        "replace_args appends exactly one element per original argument on every path (the argument itself unless its keyword matches) "
+        "and adds extras only under add_if_missing; add_arg_to_call and update_call_target build on the node's own argument list; "
+        "update_arg_target changes only args",
         min_instances=4,
     )
     base = "codemodder.codemods.libcst_transformer.LibcstResultTransformer."
     ra = ctx.prog.func(base + "replace_args")
+    node_param = ra.positional_params()[1]
     loops = [n for n in walk_no_nested(ra.node) if isinstance(n, ast.For)]
+    over_args = [l for l in loops if isinstance(l.iter, ast.Attribute) and l.iter.attr == "args" and isinstance(l.iter.value, ast.Name) and l.iter.value.id == node_param]
     ok = False
-    if loops:
-        l0 = loops[0]
-        over_args = isinstance(l0.iter, ast.Attribute) and l0.iter.attr == "args"
-        fa_appends = [c for c in ast.walk(l0) if isinstance(c, ast.Call) and last_attr(c.func) == "append"]
-        no_skip = not any(isinstance(x, (ast.Continue, ast.Break)) for x in ast.walk(l0))
-        # the else branch keeps the argument itself
-        keeps = any(isinstance(a, ast.Assign) and isinstance(a.value, ast.Name) and isinstance(l0.target, ast.Name) and a.value.id == l0.target.id for a in ast.walk(l0))
-        ok = over_args and len(fa_appends) == 1 and no_skip and keeps
-    rep.check("R-HELPER-CONTRACT", ra.qname, ra.loc(), ok, "keeps-unmatched", "replace_args no longer appends one element per original argument (keeping unmatched ones as they are)")
-    extra_ok = len(loops) >= 2 and any(isinstance(i, ast.If) and "add_if_missing" in unparse(i.test) for i in ast.walk(loops[1]))
+    why = "no loop over the original node's arguments"
+    if over_args:
+        l0 = over_args[0]
+        out_lists = {unparse(c.func.value) for c in ast.walk(l0) if isinstance(c, ast.Call) and last_attr(c.func) == "append"}
+
+        def ev(call):
+            return "EV:append" if last_attr(call.func) == "append" and unparse(call.func.value) in out_lists else None
+
+        fa = FlowAnalysis(l0, ev, body=l0.body)
+        ends = [e.state for e in fa.exits if e.kind == "end"] + [fa.state_at(st) for st in ast.walk(l0) if isinstance(st, ast.Continue) and fa.state_at(st) is not None]
+        appends = [c for c in ast.walk(l0) if isinstance(c, ast.Call) and ev(c)]
+        one_each = bool(ends) and all(has_event(e, "EV:append") for e in ends)
+        double = [c for c in appends if fa.state_at(c) is not None and may_event(fa.state_at(c), "EV:append")]
+        early = any(isinstance(x, (ast.Break, ast.Return)) for x in ast.walk(l0))
+        # what is appended: the loop variable or a rebuilt copy of it
+        lv = l0.target.id if isinstance(l0.target, ast.Name) else None
+        vals_ok = True
+        for c in appends:
+            a = c.args[0] if c.args else None
+            srcs = [a]
+            if isinstance(a, ast.Name) and a.id != lv:
+                srcs = [x.value for x in ast.walk(l0) if isinstance(x, ast.Assign) and any(isinstance(t, ast.Name) and t.id == a.id for t in x.targets)]
+            for v in srcs:
+                keeps = (isinstance(v, ast.Name) and v.id == lv) or (isinstance(v, ast.Call) and last_attr(v.func) in ("make_new_arg", "with_changes"))
+                vals_ok = vals_ok and keeps
+        ok = one_each and not double and not early and vals_ok and len(out_lists) == 1
+        why = "an original argument can be dropped, duplicated or replaced by something unrelated on some path of the loop"
+    rep.check("R-HELPER-CONTRACT", ra.qname, ra.loc(), ok, "keeps-unmatched", f"replace_args: {why}")
+    extras = [l for l in loops if l not in over_args]
+    fa_all = ctx.flow(ra)
+    extra_ok = bool(extras)
+    for l in extras:
+        for c in [x for x in ast.walk(l) if isinstance(x, ast.Call) and last_attr(x.func) == "append"]:
+            gated = any(pol and "add_if_missing" in txt for pol, txt in fa_all.must_at(c))
+            extra_ok = extra_ok and gated
     rep.check("R-HELPER-CONTRACT", ra.qname, ra.loc(), extra_ok, "extras-only-if-missing", "replace_args adds new arguments without honouring add_if_missing")
     aa = ctx.prog.func(base + "add_arg_to_call")
-    ok = "list(node.args) +" in unparse(aa.node) and "with_changes(args=new_args)" in unparse(aa.node)
+    sites = [c for c in walk_no_nested(aa.node) if isinstance(c, ast.Call) and last_attr(c.func) == "with_changes"]
+    ok = False
+    for c in sites:
+        a = next((k.value for k in c.keywords if k.arg == "args"), None)
+        if a is not None and classify_args_expr(ctx, aa, a, c)[0] == "complete":
+            ok = True
     rep.check("R-HELPER-CONTRACT", aa.qname, aa.loc(), ok, "extends-node-args", "add_arg_to_call no longer extends the node's own argument list")
     uc = ctx.prog.func(base + "update_call_target")
-    ok = "replacement_args if replacement_args else original_node.args" in unparse(uc.node)
-    rep.check("R-HELPER-CONTRACT", uc.qname, uc.loc(), ok, "keeps-args", "update_call_target no longer keeps original_node.args when no replacement is given")
+    ctor = [c for c in walk_no_nested(uc.node) if isinstance(c, ast.Call) and unparse(c.func) in ("cst.Call", "Call")]
+    ok = False
+    for c in ctor:
+        a = next((k.value for k in c.keywords if k.arg == "args"), None)
+        alts = []
+        if isinstance(a, ast.IfExp):
+            alts = [a.body, a.orelse]
+        elif isinstance(a, ast.BoolOp):
+            alts = a.values
+        elif a is not None:
+            alts = [a]
+        ok = any(isinstance(x, ast.Attribute) and x.attr == "args" for x in alts)
+    rep.check("R-HELPER-CONTRACT", uc.qname, uc.loc(), ok, "keeps-args", "update_call_target no longer keeps the original call's args when no replacement is given")
     ua = ctx.prog.func(base + "update_arg_target")
     wc = [c for c in walk_no_nested(ua.node) if isinstance(c, ast.Call) and last_attr(c.func) == "with_changes"]
     ok = len(wc) == 1 and {k.arg for k in wc[0].keywords} == {"args"}
